@@ -10,7 +10,7 @@ open Flute.Recv.Toy
 /-- first packet of FDT instance `i` (two symbols announced, only this one ever sent) -/
 def d16Pkt (i : Nat) : Pkt :=
   { toi := 0, closeObject := false, closeSession := false, fdtId := some i, sct := none,
-    fti := some ⟨⟨0, 64, 64⟩, 128⟩, pid := some (0, 0), plen := 64, dlen := 100 }
+    fti := some ⟨{ fec := 0, esl := 64, msbl := 64 }, 128⟩, pid := some (0, 0), plen := 64, dlen := 100 }
 
 /-- the history: one packet for each of the instance ids `0 .. n-1` -/
 def d16Ops : Nat → List Op
